@@ -467,6 +467,26 @@ fn run(ctx: &mut Ctx) {
                                 Some((n, p)) => {
                                     let eff = if n { -p.value.mantissa() } else { p.value.mantissa() };
                                     if eff == want_mantissa(&digits, neg) && p.value.scale() == scale {
+                                        // the same literal through the evaluator of the loaded ledger (`okane primitive eval`): its value
+                                        // is the written one, whatever display format the commodity was declared with
+                                        let expr_text = format!("{} X", lit);
+                                        let ev: Result<Vec<(String, rust_decimal::Decimal)>, String> = crate::oka::with_ledger(&[(crate::oka::ROOT, text.as_str())], crate::oka::ROOT, None, |r| match r {
+                                            Err(e) => Err(format!("load: {}", e.variant)),
+                                            Ok((l, c)) => l
+                                                .eval(c, &expr_text, &okane_core::report::query::EvalContext { date: crate::oka::date(2024, 1, 1), exchange: None })
+                                                .map(|a| crate::oka::amount_to_decmap(&a).into_iter().collect())
+                                                .map_err(|e| format!("{:?}", e)),
+                                        });
+                                        let want = rust_decimal::Decimal::from_i128_with_scale(want_mantissa(&digits, neg), scale);
+                                        match ev {
+                                            Err(e) => return Outcome::violation(format!("eval-echo/rejected-wellformed/prelude{}", pi), format!("eval {:?}: {}", expr_text, e)),
+                                            Ok(m) => {
+                                                let got = m.iter().find(|(c, _)| c == "X").map(|(_, v)| *v).unwrap_or_default();
+                                                if got != want || m.iter().any(|(c, v)| c != "X" && !v.is_zero()) {
+                                                    return Outcome::violation(format!("eval-echo/value-changed/prelude{}", pi), format!("eval {:?} gave {:?}, written value {}", expr_text, m, want));
+                                                }
+                                            }
+                                        }
                                         Outcome::pass(format!("format-echo/prelude{}/value-and-scale-kept", pi))
                                     } else {
                                         Outcome::violation(format!("format-echo/value-or-decimal-places-changed/prelude{}", pi), format!("{:?} was echoed as {} (scale {}) in:\n{}", lit, p.value, p.value.scale(), printed))
